@@ -158,7 +158,7 @@ def failing_file(makelog):
 
 
 def coqc_file(path: Path, timeout=600):
-    cmd = ["timeout", str(timeout), "coqc", "-Q", str(COQ), "TV", "-w", "-notation-overridden", str(path)]
+    cmd = ["timeout", str(timeout), "coqc", "-noglob", "-Q", str(COQ), "TV", "-w", "-notation-overridden", str(path)]
     r = subprocess.run(cmd, capture_output=True, text=True, cwd=path.parent)
     return r.returncode, r.stdout, r.stderr
 
